@@ -56,12 +56,16 @@ def run_shards(ctx, cases, label, size=12):
 
 
 # ------------------------------------------------------------------ case sources
+ALLFORMS = {}
+
+
 def synthetic(ctx, n, maxlen=None, regs_only=False):
     """yields (case, kernel, dg, isa, gen_lines, pipe)"""
     out = []
     for _ in range(n):
         isa = ctx.rng.choice(["x86", "aarch64"])
         forms, iy, ay, fwd, pidx = deps.gen_db(ctx.rng, isa)
+        ALLFORMS["forms"] = list(forms)
         if regs_only:
             forms = [f for f in forms if "mem" not in f["kinds"]] or forms
         pipe = deps.Pipeline(ctx, isa, iy, ay)
@@ -79,6 +83,26 @@ def synthetic(ctx, n, maxlen=None, regs_only=False):
         case["db"] = {"isa_yaml": iy, "arch_yaml": ay}
         ctx.coverage["synthetic_kernels_with_load_node"] = ctx.coverage.get("synthetic_kernels_with_load_node", 0) + any(l["loadnode"] for l in case["lines"])
         out.append((case, kernel, dg, isa, gl, pipe))
+        if ctx.rng.random() < 0.2:
+            # the very same kernel text again, in the same process, on a model that differs only in its latencies (and forwarding /
+            # write-back latencies): nothing of the first analysis may survive into the second one
+            import re
+            lats = [1.0, 2.0, 3.0, 4.0, 5.0, 7.0, 0.0]
+            ay2 = re.sub(r"(?m)^(    latency: )\S+$", lambda m: m.group(1) + str(ctx.rng.choice(lats)), ay)
+            ay2 = re.sub(r"(?m)^(store_to_load_forward_latency: )\S+$", lambda m: m.group(1) + str(ctx.rng.choice([0.0, 1.5, 2.0, 3.0])), ay2)
+            ay2 = re.sub(r"(?m)^(p_index_latency: )\S+$", lambda m: m.group(1) + str(ctx.rng.choice([1.0, 0.5, 2.0])), ay2)
+            # the generator's view of the forms (used by the oracles) with the latencies of the second model
+            newl = [float(x) for x in re.findall(r"(?m)^    latency: (\S+)$", ay2)]
+            pipe2 = deps.Pipeline(ctx, isa, iy, ay2)
+            case2, kernel2, dg2 = deps.build_case(pipe2, text, fd)
+            case2["origin"] = "synthetic (same text, second model)"
+            case2["db"] = {"isa_yaml": iy, "arch_yaml": ay2}
+            ctx.coverage["synthetic_kernels_reanalysed_on_second_model"] = ctx.coverage.get("synthetic_kernels_reanalysed_on_second_model", 0) + 1
+            gl2 = gl
+            if ALLFORMS.get("forms") is not None and len(newl) == len(ALLFORMS["forms"]):
+                idx = {id(f): i for i, f in enumerate(ALLFORMS["forms"])}
+                gl2 = [(t, dict(f, lat=newl[idx[id(f)]]) if id(f) in idx else f, infos) for t, f, infos in gl]
+            out.append((case2, kernel2, dg2, isa, gl2, pipe2))
     return out
 
 
@@ -92,11 +116,22 @@ def real(ctx, npairs, fast_only=True):
             if a in models.nonempty_archs() and (not fast_only or a in models.SMALL + ["zen2"]):
                 pairs.append((a, f, isa))
     ctx.rng.shuffle(pairs)
+    # every chosen kernel file is analysed on TWO models of its ISA, one right after the other and with the same options, in this
+    # process: the second analysis must not see anything of the first (graphs, weights, annotations)
+    chosen, fdof = [], {}
+    for a, f, isa in pairs:
+        if len(chosen) >= npairs:
+            break
+        if any(f == f2 for _, f2, _ in chosen):
+            continue
+        second = [(a2, f2, i2) for a2, f2, i2 in pairs if f2 == f and a2 != a][:1]
+        chosen += [(a, f, isa)] + second
+        fdof[f] = ctx.rng.random() < 0.3
     out = []
-    for a, f, isa in pairs[:npairs]:
+    for a, f, isa in chosen[:max(npairs, 2)]:
         pipe = deps.Pipeline(ctx, isa, arch=a)
         text = open(f).read()
-        fd = ctx.rng.random() < 0.3
+        fd = fdof[f]
         try:
             case, kernel, dg = deps.build_case(pipe, text, fd, reduce=True)
         except Exception as e:  # noqa
